@@ -147,6 +147,41 @@ func parseMouseEvent(seq ansi.CSI) (Mouse, bool)
                         + (seq.Parameters[0][0] & 8  != 0 ? ModAlt   : 0)
                         + (seq.Parameters[0][0] & 16 != 0 ? ModCtrl  : 0)
 
+-- ------------------------------------------------------------------ colours (C07)
+
+pred chR(v uint32) = (v >> 16) & 255
+pred chG(v uint32) = (v >> 8) & 255
+pred chB(v uint32) = v & 255
+pred sqr(x float64) = x * x
+-- the library's weighted squared distance between a palette entry and a colour, over the true (signed) channel differences
+pred D(p uint32, c Color) =
+     sqr((real(chR(p)) - real(chR(c))) * 0.3)
+   + sqr((real(chG(p)) - real(chG(c))) * 0.59)
+   + sqr((real(chB(p)) - real(chB(c))) * 0.11)
+
+func (c Color) Params() []uint8
+  ensures C07_index: (c & indexed != 0) ==> (len(result) == 1 && result[0] == c & 255)
+  ensures C07_rgb:   (c & indexed == 0 && c & rgb != 0) ==> (len(result) == 3 && result[0] == chR(c) && result[1] == chG(c) && result[2] == chB(c))
+  ensures C07_none:  (c & indexed == 0 && c & rgb == 0) ==> len(result) == 0
+
+func IndexColor(index uint8) Color
+  ensures C07_val: result == index + 16777216
+
+func RGBColor(r uint8, g uint8, b uint8) Color
+  ensures C07_val: result == r * 65536 + g * 256 + b + 33554432
+
+-- asIndex: a direct colour is mapped to the palette entry (16-255) nearest to it under D; other colours are kept.
+func (c Color) asIndex() Color
+  ensures C07_keep:    c & rgb == 0 ==> result == c
+  ensures C07_nearest: c & rgb != 0 ==> (exists k in 0..len(colorIndex):
+                          (result == 16777216 + 16 + k
+                           && (forall j in 0..len(colorIndex): D(colorIndex[k], c) <= D(colorIndex[j], c))))
+  ensures C07_notrgb:  c & rgb != 0 ==> (result & rgb == 0 && result & indexed != 0)
+  loop 1 invariant best: -1 <= rangeindex && rangeindex < len(colorIndex) && dist != 0.0
+                      && (forall k in 0..rangeindex+1: dist <= D(colorIndex[k], c))
+                      && (rangeindex >= 0 ==> (0 <= match && match <= rangeindex && dist == D(colorIndex[match], c)))
+                      && (rangeindex < 0 ==> match == -1)
+
 -- Assumed (unverified) frames of the two Vaxis services the embedded terminal calls from OSC handling:
 -- they talk to the host terminal and touch no emulator state.
 func (vx *Vaxis) QueryBackground() Color
